@@ -173,6 +173,20 @@ def FS.load (C : Codec) (fs : FS) (i : Nat) : FS × List Text :=
 /-- `History.get_strings()` on instance `i` -/
 def FS.getStrings (fs : FS) (i : Nat) : List Text := (fs.insts i).strs.reverse
 
+/-- `ThreadedHistory(inst).append_string(s)` through a wrapper that has not loaded yet
+    (`History.append_string` on the wrapper: its own list, then the proxied `store_string`):
+    the file grows by one record; the wrapped instance's `_loaded_strings` is NOT touched
+    (only the wrapped instance's own `append_string` does that). -/
+def FS.wrapAppend (C : Codec) (fs : FS) (ts s : Text) : FS :=
+  { fs with file := fs.file ++ record C ts s }
+
+/-- `[x async for x in ThreadedHistory(inst i).load()]` with nothing concurrent: the loader
+    thread calls the wrapped `load_history_strings()`, which reads the file again - the wrapped
+    instance's `History` cache (`_loaded`, `_loaded_strings`) is neither consulted nor updated,
+    whether or not instance `i` was loaded inline before. -/
+def FS.wrapLoad (C : Codec) (fs : FS) (_i : Nat) : FS × List Text :=
+  (fs, loadFile C fs.file)
+
 /-- a crash during a write: only the first `k` bytes of the file survive -/
 def FS.cut (fs : FS) (k : Nat) : FS := { fs with file := fs.file.take k }
 
